@@ -228,7 +228,7 @@ fn truncate_contract(pre: (Repr, Ghost)) {
     truncate_post(&r, &f, new_len, res);
 }
 
-// @harness name=truncate_heap hist=yes props=C01,C02,C03,C07,C11 class=U tier=quick big=yes
+// @harness name=truncate_heap nodebug=thorough hist=yes props=C01,C02,C03,C07,C11 class=U tier=quick big=yes
 #[kani::proof]
 #[kani::stub(alloc::alloc::alloc, v_alloc)]
 #[kani::stub(alloc::alloc::dealloc, v_dealloc)]
@@ -355,7 +355,7 @@ fn pop_contract(pre: (Repr, Ghost)) {
     }
 }
 
-// @harness name=pop_heap hist=yes props=C01,C02,C03,C07,C11 class=U tier=quick big=yes
+// @harness name=pop_heap nodebug=thorough hist=yes props=C01,C02,C03,C07,C11 class=U tier=quick big=yes
 #[kani::proof]
 #[kani::stub(alloc::alloc::alloc, v_alloc)]
 #[kani::stub(alloc::alloc::dealloc, v_dealloc)]
@@ -435,7 +435,7 @@ fn set_len_any() {
     set_len_contract(any_repr(REACH_CAP));
 }
 
-// @harness name=set_len_heap hist=yes props=C01,C03,C11 class=U tier=quick big=yes
+// @harness name=set_len_heap nodebug=quick hist=yes props=C01,C03,C11 class=U tier=quick big=yes
 #[kani::proof]
 #[kani::stub(alloc::alloc::alloc, v_alloc)]
 #[kani::stub(alloc::alloc::dealloc, v_dealloc)]
@@ -552,7 +552,7 @@ fn push_str_modular(heap: bool, max_cap: usize) {
     append_post(&r, &f, g.len, sp, n, &pr, res);
 }
 
-// @harness name=push_str_mod_heap hist=yes props=C01,C02,C03,C05,C06,C11 class=U tier=quick big=yes fn=Repr::push_str
+// @harness name=push_str_mod_heap nodebug=thorough hist=yes props=C01,C02,C03,C05,C06,C11 class=U tier=quick big=yes fn=Repr::push_str
 #[kani::proof]
 #[kani::stub(alloc::alloc::alloc, v_alloc)]
 #[kani::stub(alloc::alloc::dealloc, v_dealloc)]
@@ -562,7 +562,7 @@ fn push_str_mod_heap() {
     push_str_modular(true, MAX_CAP);
 }
 
-// @harness name=push_str_mod_inline hist=yes props=C01,C03,C05,C06,C09,C11 class=U tier=quick fn=Repr::push_str
+// @harness name=push_str_mod_inline nodebug=thorough hist=yes props=C01,C03,C05,C06,C09,C11 class=U tier=quick fn=Repr::push_str
 #[kani::proof]
 #[kani::stub(alloc::alloc::alloc, v_alloc)]
 #[kani::stub(alloc::alloc::dealloc, v_dealloc)]
@@ -701,7 +701,7 @@ fn remove_modular(pre: (Repr, Ghost)) {
     remove_post(&r, &f, &sp, res, true);
 }
 
-// @harness name=remove_mod_inline hist=yes props=C01,C03,C05,C07,C09 class=U tier=quick fn=Repr::remove covers=remove.err_reachable,remove.w1,remove.w4
+// @harness name=remove_mod_inline nodebug=thorough hist=yes props=C01,C03,C05,C07,C09 class=U tier=quick fn=Repr::remove covers=remove.err_reachable,remove.w1,remove.w4
 #[kani::proof]
 #[kani::stub(alloc::alloc::alloc, v_alloc)]
 #[kani::stub(alloc::alloc::dealloc, v_dealloc)]
@@ -836,7 +836,7 @@ fn insert_str_modular(heap_cap: Option<usize>, max: usize) {
     append_post(&r, &f, idx, sp, n, &pr, res);
 }
 
-// @harness name=insert_str_mod_inline hist=yes props=C01,C03,C05,C06,C07,C09,C11 class=U tier=quick fn=Repr::insert_str covers=insert_str.middle,append.err_reachable
+// @harness name=insert_str_mod_inline nodebug=thorough hist=yes props=C01,C03,C05,C06,C07,C09,C11 class=U tier=quick fn=Repr::insert_str covers=insert_str.middle,append.err_reachable
 #[kani::proof]
 #[kani::stub(alloc::alloc::alloc, v_alloc)]
 #[kani::stub(alloc::alloc::dealloc, v_dealloc)]
